@@ -1065,7 +1065,19 @@ func (app *BaseApp) runTx(mode runTxMode, txBytes []byte, tx sdk.Tx) (result sdk
 
 	// Create a new context based off of the existing context with a cache wrapped
 	// multi-store in case message processing fails.
-	runMsgCtx, newMS := app.txContext(ctx, txBytes) // todo edit here!!!
+	var runMsgCtx sdk.Context
+	var newMS sdk.MultiStore
+	if mode == runTxModeSimulate {
+		// A simulation must never touch consensus state: txContext hands out the live
+		// substores of the root multistore, so run the message on a cache-wrapped
+		// multistore that is discarded instead, and keep it away from the keepers'
+		// node-local LRU caches (they are bypassed for "prev" contexts), which the
+		// deliver path reads.
+		runMsgCtx, _ = app.cacheTxContext(ctx, txBytes)
+		runMsgCtx = runMsgCtx.SetPrevCtx(true)
+	} else {
+		runMsgCtx, newMS = app.txContext(ctx, txBytes) // todo edit here!!!
+	}
 	result = app.runMsg(runMsgCtx, msgs, mode, signer)
 	result.GasWanted = gasWanted
 
